@@ -19,7 +19,8 @@ RULE = ("rows (t_i, TAI-UTC) are read from lib/leap-seconds.list by an own parse
         "first row), GPS = TAI-19 from 1980-01-06 on; %rS == UTC difference + number of rows in "
         "(A,B], antisymmetric; addition is exact on the TAI axis and spells 23:59:60 exactly for "
         "the inserted second. Non-trivial: the two instants are separated by a row, land within "
-        "2 s of a row, or lie after 2038-01-19")
+        "2 s of a row, or lie after 2038-01-19"
+        " Offsets are asked in ascending order and, around the rows, in descending and shuffled order within one process.")
 ASSUMPTIONS = ["the oracle reads leap-seconds.list; the build's leap-seconds.def is additionally regenerated "
                "with the tree's own ltrcc and compared with the list", "negative leap seconds do not occur in the list"]
 
